@@ -696,7 +696,8 @@ func (db *RockDB) SetRange(ts int64, rawKey []byte, offset int, value []byte) (i
 	if len(value) == 0 {
 		return 0, nil
 	}
-	if len(value)+offset > MaxValueSize {
+	// compare without adding: offset comes from the client and may be close to the maximum int
+	if offset > MaxValueSize || len(value) > MaxValueSize-offset {
 		return 0, errValueSize
 	}
 	keyInfo, realV, err := db.prepareKVValueForWrite(ts, rawKey, false)
